@@ -107,7 +107,9 @@ func init() {
 	for _, n := range []string{"ReverseUint64", "ReverseInt64"} {
 		axiomContracts[ci+"."+n] = &Contract{Axiom: true, Post: []CIneq{cLE(cR(1), cLenP(0)), cGE(cR(1), cK(-1)), cLE(cR(1), cK(9))}}
 	}
-	axiomContracts[ci+".ReverseSize"] = &Contract{Axiom: true, Post: []CIneq{cLE(cR(0), cLenP(0)), cGE(cR(0), cK(-1)), cLE(cR(0), cK(9))}}
+	// path/filepath.Ext returns a suffix of its argument (read from the standard library source)
+	axiomContracts["path/filepath.Ext"] = &Contract{Axiom: true, Post: []CIneq{cLE(cLenR(0), cLenP(0))}}
+	axiomContracts[ci+".ReverseSize"] =&Contract{Axiom: true, Post: []CIneq{cLE(cR(0), cLenP(0)), cGE(cR(0), cK(-1)), cLE(cR(0), cK(9))}}
 	// encoding/binary.bigEndian: Uint16/32/64(b) require len(b) >= 2/4/8
 	for n, k := range map[string]int64{"Uint16": 2, "Uint32": 4, "Uint64": 8, "PutUint16": 2, "PutUint32": 4, "PutUint64": 8} {
 		axiomContracts["encoding/binary.bigEndian."+n] = &Contract{Axiom: true, Pre: []CIneq{cGE(cLenP(1), cK(k))}}
@@ -413,6 +415,9 @@ func (st *solveState) callOK(call *ssa.Call) bool {
 		return false
 	}
 	last := tup.Len() - 1
+	if last < 0 {
+		return false
+	}
 	if !types.Identical(tup.At(last).Type(), types.Universe.Lookup("error").Type()) {
 		return false
 	}
